@@ -1,5 +1,6 @@
 import HexVerif.Lemmas.XcmpFuel
 import HexVerif.Lemmas.XcmpNoLocalArr
+import HexVerif.Lemmas.XcmpNamed
 import HexVerif.Lemmas.XcmpV1
 import HexVerif.Xcmp.Compile
 /-!
@@ -26,12 +27,15 @@ import HexVerif.Xcmp.Compile
   * `C09_pipeline_partial`: the WHOLE compiler model from source bytes (`runSrc` = front end, then
     `Xcmp.compileFile`: symbols, constant propagation, rewriting, code generation, lowering, peephole,
     in-process assembly, file image) ends in an image, a located front-end diagnostic or a semantic
-    diagnostic of a named exception class - or in the explicitly named residual `Residual P` (the
-    directive list handed to the assembler fails the decidable check `dirsOkB`: an immediate outside
-    32 bits or 2^26 directives; or a compile stage raises `unsupported` although the program has no
-    local array).  The residual is evaluated on every program of the C01/C08/C09 correspondence runs
-    (field `R=` of the compiler-model driver) and has never been met; that it is empty is not proved.
-    Under `dirsOkB` label resolution terminates (`Asm.assemble_terminates`, the C05/C10 theorem).
+    diagnostic of a named exception class - or in the explicitly named residual `Residual P`: the
+    directive list handed to the assembler fails the decidable check `dirsOkB` (an immediate outside
+    32 bits, or 2^26 directives).  That no compile stage ends in an outcome without a C++ counterpart
+    is proved by a walk over every stage (`Lemmas/XcmpNamed.lean`: `stages_named` - the only
+    un-named error of the model is raised for a local array, which no parsed program has).
+    The residual is evaluated on every program of the C01/C08/C09 correspondence runs (field `R=` of
+    the compiler-model driver) and has never been met; that it is empty is not proved (it needs a
+    bound of frame sizes by the source length).  Under `dirsOkB` label resolution terminates
+    (`Asm.assemble_terminates`, the C05/C10 theorem).
 
   NOT proved (so the level claimed is partial): the partial operations of the C++ after the
   parser - symbol table, constant propagation, code generation, lowering, peephole, assembly - where
@@ -98,10 +102,6 @@ inductive Outcome where
 /-- The side condition under which the assembler model follows hexasm on xcmp's directive list. -/
 def dirsOkB (ds : List Asm.Dir) : Bool := C01s.parsedOkB ds && decide (ds.length < 2 ^ 26)
 
-def CDiag.named : CDiag → Bool
-  | .asmFuel | .unsupported _ => false
-  | _ => true
-
 def runSrc (src : List Byte) : Outcome :=
   match parse src with
   | .error (.diag d) => .frontDiag d
@@ -117,9 +117,8 @@ def runSrc (src : List Byte) : Outcome :=
         | .error e => if CDiag.named e then .compileDiag e else .anomaly "assembler"
       else .anomaly "directive list outside the assembler model"
 
-/-- What is not excluded by proof: see the header. -/
-def Residual (P : X.Program) : Prop :=
-  (∃ e, stages P = .error e ∧ CDiag.named e = false) ∨ (∃ st, stages P = .ok st ∧ dirsOkB st.optimised = false)
+/-- What is not excluded by proof: the directive list handed to the assembler fails `dirsOkB`. -/
+def Residual (P : X.Program) : Prop := ∃ st, stages P = .ok st ∧ dirsOkB st.optimised = false
 
 /-- No program the parser delivers declares a local array. -/
 theorem C09_no_local_array (src : List Byte) (P : X.Program) (h : parse src = .ok P) : NoLocalArr P :=
@@ -161,9 +160,8 @@ theorem C09_pipeline_partial (src : List Byte) :
     have hna := C09_no_local_array src P hp
     cases hs : stages P with
     | error e =>
-      by_cases hn : CDiag.named e = true
-      · exact Or.inr (Or.inr (Or.inl ⟨e, by simp only [runSrc, hp, hs, hn, if_true], hn⟩))
-      · exact Or.inr (Or.inr (Or.inr ⟨P, rfl, hna, Or.inl ⟨e, hs, by simpa using hn⟩⟩))
+      have hn : CDiag.named e = true := stages_named P hna e hs
+      exact Or.inr (Or.inr (Or.inl ⟨e, by simp only [runSrc, hp, hs, hn, if_true], hn⟩))
     | ok st =>
       by_cases hd : dirsOkB st.optimised = true
       · cases ha : assembleDirs st.optimised with
@@ -181,7 +179,7 @@ theorem C09_pipeline_partial (src : List Byte) :
             | nonConstVal n => exact hn rfl
             | invalidSyscall n => exact hn rfl
             | asm d => exact hn rfl
-      · exact Or.inr (Or.inr (Or.inr ⟨P, rfl, hna, Or.inr ⟨st, hs, by simpa using hd⟩⟩))
+      · exact Or.inr (Or.inr (Or.inr ⟨P, rfl, hna, ⟨st, hs, by simpa using hd⟩⟩))
 
 /-- In the other direction the four outcomes are exclusive and the model says which one: an
     `anomaly` is reported only inside the residual (or never, for the front end). -/
